@@ -17,7 +17,7 @@ RULE = ("hybrid tensors (per-mode TT|CP x factor none|narrow|square|wide, ranks 
         "random Boolean formula (truth table over subset indicators; optionally rounded -> Tucker factors on the mask) with keepdim on and "
         "off: equals the sum of the selected terms, and without keepdim exactly the modes in no selected subset are dropped; (F) operands "
         "(tensor cores, marginal vectors) unchanged by every call. Default dtype float64 (1e-8 scaled by max|t|); float32 default for 8% "
-        "of the cases (float64 tensor under the PyTorch default dtype; 1e-5). distinct = (format signature, shape, ranks, marginal kinds, "
+        "of the cases (float64 tensor and float64 masks while torch's default dtype is its factory setting float32; 1e-5). distinct = (format signature, shape, ranks, marginal kinds, "
         "mask formula, dd); non-trivial = >1 mode or rank>1 or a factor")
 TRUSTED = ["the NumPy inclusion-exclusion ANOVA (props/_c_anova.py) on PT.dense() is the oracle; by the uniqueness theorem of the design any "
            "correct definition of the terms agrees with it",
@@ -194,7 +194,11 @@ def run_case(ctx, case):
     impl_terms = {}
     for S in A.subsets(N):
         how = case["ind"]
-        f = call("term", lambda: as_np(tn.undo_anova_decomposition(tn.mask(a, indicator_mask(N, S, how)))))
+        ires = with_dd("float64", lambda: safe(lambda: indicator_mask(N, S, how)))   # masks are always float64 tensors
+        if ires[0] == "err" or not close(as_np(ires[1])[A.indicator(N, S)], 1.0, rtol=1e-9)[0] or not close(float(as_np(ires[1]).sum()), 1.0, rtol=1e-9)[0]:
+            ctx.count("mask_unusable")      # Boolean formulas are C15's business
+            continue
+        f = call("term", lambda: as_np(tn.undo_anova_decomposition(tn.mask(a, ires[1]))))
         if f is None:
             break
         extra = "; indicator mask built as %s" % {"pa": "presence & absence", "only": "only(all(S))", "rounded": "a rounded formula"}[how]
@@ -234,7 +238,7 @@ def run_case(ctx, case):
             m = m.clone(); m.round()
         return m
 
-    mres = with_dd(dd, lambda: safe(mk_mask))
+    mres = with_dd("float64", lambda: safe(mk_mask))
     if mres[0] == "ok" and close(as_np(mres[1]), mtab.astype(np.float64), rtol=tol)[0]:
         mask = mres[1]
         sel = [S for S in A.subsets(N) if mtab[A.indicator(N, S)]]
@@ -255,8 +259,8 @@ def run_case(ctx, case):
                 what = "keepdim=%s: result differs from the sum of the selected terms %s (%s)" % (keepdim, [list(S) for S in sel], err)
                 # diagnosis (names the class only): does the same call pass with the un-rounded, factor-free mask?
                 if any(U is not None for U in mask.Us):
-                    r2 = with_dd(dd, lambda: safe(lambda: as_np(tn.truncate_anova(tt, L.build(case["mask"], N, tn.symbols(N), None),
-                                                                                  keepdim=keepdim, marginals=marg))))
+                    plain = with_dd("float64", lambda: L.build(case["mask"], N, tn.symbols(N), None))
+                    r2 = with_dd(dd, lambda: safe(lambda: as_np(tn.truncate_anova(tt, plain, keepdim=keepdim, marginals=marg))))
                     if r2[0] == "ok" and near(r2[1], e)[0]:
                         ctx.count("fail:" + op)
                         ctx.oracle("%s: %s; passes with the factor-free mask" % (op, what), case,
